@@ -127,6 +127,9 @@ def special_cases():
     S.append(('builtin-inside', 'alias q=r ; vh-argv "$(alias)"', {}, [["alias q='r'"]], 0))
     S.append(('function-inside', 'function fn1() {\n vh-emit a\n}\nvh-argv "$(fn1)"', {'a': b'f o\n'}, [['f o']], 1))
     S.append(('function-inside-backquote', 'function fn1() {\n vh-emit a\n}\nvh-argv "h`fn1`t"', {'a': b'$1\n'}, [['h$1t']], 1))
+    S.append(('pipeline-ending-in-builtin-inside', 'alias q=r ; vh-argv "$(vh-emit a | alias)"', {'a': b'zz\n'}, [["alias q='r'"]], 1))
+    S.append(('pipeline-ending-in-builtin-inside-backquote', 'alias q=r ; vh-argv "h`vh-emit a | alias`t"', {'a': b'zz\n'}, [["halias q='r't"]], 1))
+    S.append(('pipeline-starting-with-builtin-inside', 'alias q=r ; vh-argv "$(alias | vh-io x)"', {}, [['out:x']], 0))
     S.append(('failing-inside', 'vh-argv "$(vh-emit a 3)"', {'a': b'out\n'}, [['out']], 1))
     S.append(('notfound-inside', 'vh-argv "h$(vh-nosuchcmd)t"', {}, [['ht']], 0))
     S.append(('invalid-inside', 'vh-argv "h$(vh-emit a >)t"', {'a': b'zz\n'}, [['ht']], 0))
